@@ -425,10 +425,11 @@ class SimNetwork:
             pass
 
     def _server_knows_newer(self, addr):
-        conn = self.sim.server.conn
-        if conn is None:
-            return False
-        return any(p.addr[0] == addr[0] and p.addr[1] > addr[1] for p in conn._network_paths)
+        """RFC 9000 9.3: an endpoint sends to the source address of the highest-numbered non-probing
+        (1-RTT) packet it received. `expected_client_addr` is maintained by an oracle that decodes
+        the wire (checks.c01.PathExpectation); None = unknown, be lenient."""
+        exp = getattr(self, "expected_client_addr", None)
+        return exp is not None and exp[0] == addr[0] and exp[1] > addr[1]
 
     def _arrive(self, d, copy_index):
         self.in_flight -= 1
@@ -441,8 +442,8 @@ class SimNetwork:
             # its former mappings: "old_addr_alive")
             ep = self.sim.client
             if self.sim.profile.get("strict_heal") and self._server_knows_newer(d.dst):
-                # ... but not for a server that has already processed a packet from a newer address of
-                # this client: it knows better, sending to the old mapping is its own doing
+                # ... but not for a server to which the highest-numbered non-probing 1-RTT packet so far was
+                # delivered from a newer address of this client: sending to the old mapping is its own doing
                 ep = None
         if ep is None:
             self.k.trace("noroute", d.id)
